@@ -130,7 +130,7 @@ fn case_sized<F: Family>(input: &Input, ctx: &mut Ctx) -> CaseResult {
 pub fn sized_publish<F: Family>(rl: usize) -> F::Packet {
     // v3: 2+1 topic; v5: +1 property length
     let fixed = if F::FAM == model::Fam::V5 { 4 } else { 3 };
-    F::publish_with_payload(vec![0x5Au8; rl.saturating_sub(fixed)])
+    F::publish_with_payload(vec![0u8; rl.saturating_sub(fixed)])
 }
 
 pub const SUB_V3: Sub = Sub { name: "c01.roundtrip.v3", f: case::<V3> };
@@ -151,7 +151,7 @@ pub fn run(env: &mut Env) -> RunResult {
     env.run_tapes(SUB_T3, n / 2, 96)?;
     env.run_tapes(SUB_T5, n, 200)?;
     // remaining lengths around every header-width boundary
-    let mut sizes: Vec<u64> = vec![2, 3, 4, 5, 126, 127, 128, 129, 16_382, 16_383, 16_384, 16_385];
+    let mut sizes: Vec<u64> = vec![4, 5, 6, 126, 127, 128, 129, 16_382, 16_383, 16_384, 16_385];
     if env.thorough() {
         sizes.extend([2_097_150u64, 2_097_151, 2_097_152, 2_097_153, 268_435_455]);
     } else {
